@@ -46,7 +46,7 @@ func flowUnwrap(c *core.Ctx, r *core.Reporter) {
 				return
 			}
 			nm := core.NamedOf(st)
-			if nm == nil || nm.Obj().Pkg() == nil || nm.Obj().Pkg().Path() != core.ModPath || !wrapperIfaces[nm.Obj().Name()] {
+			if nm == nil || nm.Obj().Pkg() == nil || nm.Obj().Pkg().Path() != core.ModPath || !wrapperIfaces[core.N(nm.Obj())] {
 				return
 			}
 			switch core.TypeName(t) {
@@ -110,7 +110,7 @@ func stripped(info *types.Info, fd *ast.FuncDecl, e ast.Expr) bool {
 			return false
 		}
 		f := core.CalleeObj(info, call)
-		return f != nil && (f.Name() == "GetNullable" || f.Name() == "GetNamed")
+		return f != nil && (core.N(f) == "GetNullable" || core.N(f) == "GetNamed")
 	}
 	if isStrip(e) {
 		return true
@@ -160,7 +160,7 @@ func recOfType(c *core.Ctx, r *core.Reporter) {
 		pi := -1
 		for i, p := range fn.Params {
 			if nm := core.NamedOf(p.Type()); nm != nil && types.IsInterface(p.Type()) && nm.Obj().Pkg() != nil &&
-				nm.Obj().Pkg().Path() == core.ModPath && wrapperIfaces[nm.Obj().Name()] {
+				nm.Obj().Pkg().Path() == core.ModPath && wrapperIfaces[core.N(nm.Obj())] {
 				pi = i
 			}
 		}
@@ -185,12 +185,12 @@ func recOfType(c *core.Ctx, r *core.Reporter) {
 			if !fromWrapper && len(other) > 0 && !mentionsOfType(args[pi], 0) {
 				continue // recursion on something else than a wrapper's element type (a field type, a possible type, ...)
 			}
-			per[fn.Name()]++
-			key := fmt.Sprintf("%s/recursion#%d", fn.Name(), per[fn.Name()])
+			per[core.N(fn)]++
+			key := fmt.Sprintf("%s/recursion#%d", core.N(fn), per[core.N(fn)])
 			if len(other) == 0 {
 				r.OK(key, site.Pos(), "continues with the wrapper's own OfType")
 			} else {
-				r.Bad(key, site.Pos(), "%s continues its recursion over List / NonNull with a type that went through %s instead of the wrapper's own OfType: inner wrappers are stripped, so nested lists (`[[T]]`) and non-null items are converted against the wrong type", fn.Name(), core.Join(other))
+				r.Bad(key, site.Pos(), "%s continues its recursion over List / NonNull with a type that went through %s instead of the wrapper's own OfType: inner wrappers are stripped, so nested lists (`[[T]]`) and non-null items are converted against the wrong type", core.N(fn), core.Join(other))
 			}
 		}
 	}
